@@ -1308,6 +1308,58 @@ def stage_table(ctx, st):
         iox.close()
 
 
+def stage_reduced_precision(ctx):
+    """numbers held in reduced-precision numpy types (float32, float16, complex64 - what a camera pipeline or a GPU fit hands
+    over) with values that are NOT short binary fractions: every such number is exactly a double, so it has to come back as
+    exactly that double (a text that is only the shortest float32 repr reads back as another double)"""
+    import numpy as np
+    from holopy.scattering import Sphere, Cylinder, Spheres, LayeredSphere
+    from holopy.core.prior import Uniform, Gaussian, ComplexPrior
+    iox = IO()
+    rng = ctx.subrng("reduced")
+    try:
+        for k in range(ctx.n(12, 60)):
+            re_, im_ = rng.choice([1.59, 1.33, 1.45, 2.417, 1.1]), rng.choice([0.1, 0.05, 0.003, 0.27])
+            kind = ["complex64", "float32", "complex64-array", "float32-array", "float16", "complex64-in-spheres"][k % 6]
+            if kind == "complex64":
+                o = Sphere(n=np.complex64(complex(re_, im_)), r=np.float32(0.55), center=(0.1, 0.2, 3.0))
+                get = lambda x: [complex(x.n), float(x.r)]  # noqa
+            elif kind == "float32":
+                o = Cylinder(n=np.float32(re_), d=np.float32(0.7), h=np.float32(1.3), center=(0.1, 0.2, 3.0))
+                get = lambda x: [float(x.n), float(x.d), float(x.h)]  # noqa
+            elif kind == "complex64-array":
+                o = Sphere(n=np.array([complex(re_, im_), complex(re_ + 0.07, 0.0)], dtype=np.complex64), r=[0.3, 0.55], center=(0, 0, 3.0))
+                get = lambda x: [complex(v) for v in np.ravel(x.n)]  # noqa
+            elif kind == "float32-array":
+                o = LayeredSphere(n=np.array([re_, re_ + 0.07], dtype=np.float32), t=np.array([0.3, 0.13], dtype=np.float32), center=(0, 0, 3.0))
+                get = lambda x: [float(v) for v in np.ravel(x.n)] + [float(v) for v in np.ravel(x.t)]  # noqa
+            elif kind == "float16":
+                o = Gaussian(np.float16(re_), np.float16(im_))
+                get = lambda x: [float(x.mu), float(x.sd)]  # noqa
+            else:
+                o = Spheres([Sphere(n=np.complex64(complex(re_, im_)), r=0.4, center=(0, 0, 3.0)),
+                             Sphere(n=np.complex64(complex(re_ + 0.07, im_ / 2)), r=0.3, center=(1.0, 0, 3.0))])
+                get = lambda x: [complex(m.n) for m in x.scatterers]  # noqa
+            want = get(o)
+            for target in ("stream", "file"):
+                text, r = iox.cycle(o, target)
+                ctx.explored += 1
+                ctx.count("reduced-precision:%s" % kind)
+                ctx.nontriv(("reduced", kind, target))
+                meta = dict(kind="reduced-precision", what=kind, target=target, text=text, original=repr(o)[:200])
+                if isinstance(r, Exception):
+                    ctx.violation("load:reduced-precision:%s" % kind, "an object holding %s numbers saves but does not load: %s" % (kind, r), meta)
+                    break
+                got = get(r)
+                if got != want:
+                    ctx.violation("args:reduced-precision:%s" % kind,
+                                  "an object holding %s numbers reloads with other values: %r != %r" % (kind, got[:3], want[:3]),
+                                  dict(meta, got=[str(v) for v in got], want=[str(v) for v in want]))
+                    break
+    finally:
+        iox.close()
+
+
 def kept(trees, cls, kw, a, o, dflt):
     """is constructor argument `a` kept as the attribute of the same name?  Either the attribute equals what was
     passed, or the constructor normalises it idempotently (ensure_array, dict merged over defaults, a computed
@@ -1788,6 +1840,7 @@ def run(ctx):
         guarded(ctx, "history", stage_history_none, ctx, st)
         guarded(ctx, "objects", stage_objects, ctx, st)
         guarded(ctx, "models", stage_models, ctx, st)
+        guarded(ctx, "reduced-precision", stage_reduced_precision, ctx)
 
 
 def replay(ctx, data):
